@@ -577,16 +577,29 @@ static void CodeSHARED(Word Index) {
             case TempFloat:
                 as_snprintf(s, sizeof(s), "%0.17g", t.Contents.Float);
                 break;
-            case TempString:
-                as_nonz_dynstr_to_c_str(s + 1, &t.Contents.str, sizeof(s) - 1);
-                if (ShareMode == 1) {
-                    *s = '\'';
-                    strmaxcat(s, "\'", STRINGSIZE);
-                } else {
-                    *s = '\"';
-                    strmaxcat(s, "\"", STRINGSIZE);
+            case TempString: {
+                /* quote characters the way the target language reads them back:
+                   Pascal doubles the quote, C and AS escape quote and backslash;
+                   leave room for escape, closing quote, NUL and the "equ " prefix */
+
+                char const  Quote = (ShareMode == 1) ? '\'' : '\"';
+                char const *pSrc  = t.Contents.str.p_str,
+                           *pEnd  = pSrc + t.Contents.str.len;
+                char*       pDest = s;
+
+                *pDest++ = Quote;
+                for (; (pSrc < pEnd) && *pSrc && (pDest < s + sizeof(s) - 7); pSrc++) {
+                    if (*pSrc == Quote) {
+                        *pDest++ = (ShareMode == 1) ? Quote : '\\';
+                    } else if ((*pSrc == '\\') && (ShareMode != 1)) {
+                        *pDest++ = '\\';
+                    }
+                    *pDest++ = *pSrc;
                 }
+                *pDest++ = Quote;
+                *pDest   = '\0';
                 break;
+            }
             default:
                 continue;
             }
